@@ -167,9 +167,10 @@ def run_config(cfg):
 
     def serialize(self, *a, **k):
         data = orig_serialize(self, *a, **k)
-        messages.append(data if isinstance(data, bytes) else str(data).encode())
+        messages.append((self.msg_factory, data if isinstance(data, bytes) else str(data).encode()))
         return data
     clients = {'prov': [], 'cons': []}
+    factories = {}
 
     def recording(owner):
         class Rec(e.SoapClient):
@@ -196,6 +197,7 @@ def run_config(cfg):
                                                        ssl_context_container=mk_container() if prov_tls else None,
                                                        components=pc, alternative_hostname=ALT if prov_alt else None,
                                                        max_subscription_duration=10)
+            factories['prov'] = dev.msg_factory
             dev.start_all(start_rtsample_loop=False,
                           shared_http_server=mk_shared(prov_server) if prov_server != 'own' else None)
             psrv = dev._http_server
@@ -204,7 +206,7 @@ def run_config(cfg):
             xaddrs = dev.get_xaddrs()
             for x in xaddrs:
                 mm = re.match(r'^(https?)://([^/:]+):(\d+)', x)
-                obs['addresses'].append(['xaddr', mm.group(1), 'ip' if mm.group(2)[0].isdigit() else 'alt', 'prov', 'get_xaddrs', True])
+                obs['addresses'].append(['xaddr', mm.group(1), 'ip' if mm.group(2)[0].isdigit() else 'alt', 'prov', 'get_xaddrs', True, 'prov'])
             cc = e.consumerimpl.default_components_factory() if hasattr(e.consumerimpl, 'default_components_factory') else None
             import copy
             cc = copy.deepcopy(e.consumerimpl.default_sdc_consumer_components_sync) if cc is None else cc
@@ -214,6 +216,7 @@ def run_config(cfg):
                                      force_ssl_connect=(mode == 'enforced'), components=cc,
                                      alternative_hostname=ALT if cons_alt else None, socket_timeout=8)
                 obs['init_ssl'] = cons.is_ssl_connection
+                factories['cons'] = cons.msg_factory
                 csrv_shared = mk_shared(cons_server) if cons_server != 'own' else None
                 cons.start_all(shared_http_server=csrv_shared, fixed_renew_interval=None)
                 obs['start'] = 'ok'
@@ -252,6 +255,43 @@ def run_config(cfg):
                     except Exception as ex:  # noqa: BLE001
                         obs['notes'].append('unsubscribe: ' + type(ex).__name__)
                 obs['subscribed'] = sum(1 for s in subs if s.is_subscribed)
+                # requests a peer may send: the hosted services called under an alias name (Host header = alias), and a
+                # Subscribe whose wsa:To names the event source with the OTHER scheme (addresses in headers are peer input)
+                try:
+                    alias_client = cons.get_soap_client(f'{xaddrs[0].split(":")[0]}://{ALT}:{psrv.server_port}/')
+                    obs['alias_client'] = True
+                    from urllib.parse import urlparse as _urlparse
+
+                    from sdc11073.xml_types import mex_types
+                    from sdc11073.xml_types.addressing_types import HeaderInformationBlock
+                    for hosted_ in cons.host_description.relationship.Hosted:
+                        address_ = hosted_.EndpointReference[0].Address
+                        payload_ = mex_types.GetMetadata()      # what HostedServiceDescription.read_metadata sends
+                        inf_ = HeaderInformationBlock(action=payload_.action, addr_to=address_)
+                        alias_client.post_message_to(_urlparse(address_).path, cons.msg_factory.mk_soap_message(inf_, payload=payload_),
+                                                     msg='verif alias GetMetadata')
+                except Exception as ex:  # noqa: BLE001
+                    obs['notes'].append('alias metadata: ' + type(ex).__name__)
+                try:
+                    import copy as _copy
+
+                    from sdc11073.consumer.subscription import ConsumerSubscription
+                    from sdc11073.xml_types import eventing_types
+                    from sdc11073.xml_types.dpws_types import DeviceEventingFilterDialectURI
+                    hosted = next(h for h in cons.host_description.relationship.Hosted if any(t.localname == 'StateEventService' for t in h.Types))
+                    hosted2 = _copy.deepcopy(hosted)
+                    addr = hosted2.EndpointReference[0].Address
+                    hosted2.EndpointReference[0].Address = ('http://' + addr[8:]) if addr.startswith('https://') else ('https://' + addr[7:])
+                    flt = eventing_types.FilterType()
+                    flt.text = dev.mdib.sdc_definitions.Actions.EpisodicAlertReport
+                    flt.Dialect = DeviceEventingFilterDialectURI.ACTION
+                    sub2 = ConsumerSubscription(cons.msg_factory, cons.sdc_definitions.data_model, cons.get_soap_client, hosted2, flt,
+                                                cons.base_url + 'verif_n', cons.base_url + 'verif_e', 'verif')
+                    sub2.subscribe(expires=30)
+                    obs['other_scheme_subscribe'] = bool(sub2.is_subscribed)
+                    sub2.unsubscribe()
+                except Exception as ex:  # noqa: BLE001
+                    obs['notes'].append('other-scheme subscribe: ' + type(ex).__name__)
                 if mode == 'enforced':
                     # the whole life of an enforcing consumer: restart (= stop_all + start_all with the same parameters)
                     try:
@@ -289,13 +329,16 @@ def run_config(cfg):
                     srv.stop()
                 except Exception:  # noqa: BLE001
                     pass
-    for data in messages:
+    prov_factory = factories.get('prov')
+    cons_factory = factories.get('cons')
+    for factory, data in messages:
+        author = 'prov' if factory is prov_factory else ('cons' if factory is cons_factory else '?')
         for path, scheme, kind, owner, wellformed in _own_addresses(data, ports if 'ports' in dir() else {}):
             site = classify(path)
             if site is None:
                 obs['unmapped'].append([path, scheme, owner])
             else:
-                obs['addresses'].append([site, scheme, kind, owner, path, wellformed])
+                obs['addresses'].append([site, scheme, kind, owner, path, wellformed, author])
     obs['cons_clients'] = [int(t) for _, t in clients['cons']]
     obs['prov_clients'] = [int(t) for _, t in clients['prov']]
     obs['n_messages'] = len(messages)
@@ -476,7 +519,8 @@ def oracle(ctx, obs):
     prov_tls, prov_server, prov_alt, mode, cons_server, cons_alt = cfg
     case = {'config': list(cfg)}
     if prov_tls:
-        bad = [a for a in obs['addresses'] if a[3] == 'prov' and a[1] != 'https']
+        # every address of an own endpoint in every message the provider serialised (whatever the XML context)
+        bad = [a for a in obs['addresses'] if a[3] == 'prov' and a[1] != 'https' and a[6] in ('prov', '?')]
         if bad:
             ctx.fail('tls:provider-advertises-plaintext:' + bad[0][0], f'provider with TLS writes {bad[0][1]} address at {bad[0][4]}', case)
         if any(t == 0 for t in obs['prov_clients']):
@@ -486,7 +530,7 @@ def oracle(ctx, obs):
             ctx.fail('tls:enforced-consumer-plaintext-client', f'consumer with force_ssl_connect created soap clients {obs["cons_clients"]}', case)
         if obs.get('ssl') is not True and obs.get('ssl') is not None:
             ctx.fail('tls:enforced-consumer-fell-back', f'is_ssl_connection = {obs.get("ssl")}', case)
-        bad = [a for a in obs['addresses'] if a[3] == 'cons' and a[1] != 'https']
+        bad = [a for a in obs['addresses'] if a[3] == 'cons' and a[1] != 'https' and a[6] in ('cons', '?')]
         if bad:
             ctx.fail('tls:enforced-consumer-advertises-plaintext:' + bad[0][0],
                      f'consumer with force_ssl_connect writes {bad[0][1]} address at {bad[0][4]} (event sink server: {cons_server})', case)
@@ -503,6 +547,8 @@ def model_lines(obs):
     evs = f'c{ok}'
     if any(a[0] == 'hostedEpr' for a in obs['addresses']):
         evs += ' g1' if prov_alt else ' g0'     # the hosted services are addressed by ip, the device by the x-addr
+    if obs.get('alias_client'):
+        evs += ' g0' if prov_alt else ' g2'     # the alias name is the x-addr's netloc when the provider advertises it
     if obs.get('restart'):
         evs += f' s c{ok}' + (' g1' if prov_alt else ' g0')
     return [f"crun {mode} {evs}",
@@ -521,9 +567,9 @@ def compare(ctx, obs, out):
                          f'ssl={model_ssl} clients={model_clients}', f"ssl={ssl_letter(obs['ssl'])} clients={obs['cons_clients']}")
     # ---- sites
     fields = dict(f.split('=') for f in out[1].split())
-    for site, scheme, kind, owner, path, wellformed in obs['addresses']:
-        if site == 'echo':
-            continue
+    for site, scheme, kind, owner, path, wellformed, author in obs['addresses']:
+        if site == 'echo' or (author != owner and author != '?'):
+            continue    # an address of the peer copied into a request (header or body) is the peer's input, not a site
         want = fields[site]
         if want != f'{scheme}/{kind}':
             ctx.disagree(f'address at site {site}', {**case, 'context': path}, want, f'{scheme}/{kind}')
@@ -630,6 +676,39 @@ def verify_table():
     return res
 
 
+VM_NAME = {ssl.CERT_NONE: 'CERT_NONE', ssl.CERT_OPTIONAL: 'CERT_OPTIONAL', ssl.CERT_REQUIRED: 'CERT_REQUIRED'}
+
+
+def folder_table():
+    """mk_ssl_contexts_from_folder on real folders: every combination of key / certificate / CA file present, CA named"""
+    import shutil
+    import tempfile
+    e = env()
+    res = []
+    for key in (False, True):
+        for cert in (False, True):
+            for named in (False, True):
+                for present in (False, True):
+                    d = tempfile.mkdtemp(prefix='verif_c19_')
+                    try:
+                        if key:
+                            shutil.copy(CERTS / 'test_private_key.pem', os.path.join(d, 'userkey.pem'))
+                        if cert:
+                            shutil.copy(CERTS / 'test_certificate.pem', os.path.join(d, 'usercert.pem'))
+                        if present:
+                            shutil.copy(CERTS / 'test_certificate.pem', os.path.join(d, 'cacert.pem'))
+                        try:
+                            kw = {} if named else {'ca_public_key': None}     # default: ca_public_key='cacert.pem'
+                            c = e.certloader.mk_ssl_contexts_from_folder(d, ssl_passwd='password', **kw)
+                            out = (VM_NAME[c.client_context.verify_mode], VM_NAME[c.server_context.verify_mode])
+                        except Exception as ex:  # noqa: BLE001
+                            out = type(ex).__name__
+                    finally:
+                        shutil.rmtree(d, ignore_errors=True)
+                    res.append((key, cert, named, present, out))
+    return res
+
+
 def init_table():
     e = env()
     container = mk_container()
@@ -665,6 +744,15 @@ def translate(ctx):
     vm = {ssl.CERT_NONE: '.certNone', ssl.CERT_OPTIONAL: '.certOptional', ssl.CERT_REQUIRED: '.certRequired'}
     vt = ', '.join(f"({str(s).lower()}, {str(c).lower()}, {vm[m]})" for s, c, m in verify_table())
     it = ', '.join(f"(.{m}, {'none' if v is None else 'some ' + str(v).lower()})" for m, v in init_table())
+    vname = {'CERT_NONE': '.certNone', 'CERT_OPTIONAL': '.certOptional', 'CERT_REQUIRED': '.certRequired'}
+
+    def fres(out):
+        if out == 'FileNotFoundError':
+            return '.fileNotFound'
+        if isinstance(out, tuple):
+            return f'.contexts {vname[out[0]]} {vname[out[1]]}'
+        raise RuntimeError(f'translator: mk_ssl_contexts_from_folder ended with {out}')
+    ft = ',\n  '.join(f"({str(k).lower()}, {str(c).lower()}, {str(n).lower()}, {str(p_).lower()}, {fres(o)})" for k, c, n, p_, o in folder_table())
     src = ('import SdcModel.Tls\n/-! generated by harness/props/c19.py from the running code — do not edit -/\n'
            'namespace Sdc.Generated.C19\nopen Sdc.Tls\n'
            '/-- sites (XML contexts mapped to model sites) at which an address of an own endpoint was found in a serialised message -/\n'
@@ -673,6 +761,8 @@ def translate(ctx):
            f'def verifyObserved : List (Bool × Bool × Verify) := [{vt}]\n'
            '/-- `is_ssl_connection` after the `SdcConsumer` constructor -/\n'
            f'def initSslObserved : List (ConsMode × Option Bool) := [{it}]\n'
+           '/-- `(key present, certificate present, CA file named, CA file present, result)` of `mk_ssl_contexts_from_folder` -/\n'
+           f'def folderObserved : List (Bool × Bool × Bool × Bool × FolderResult) := [\n  {ft}]\n'
            'end Sdc.Generated.C19\n')
     core.write_if_changed(core.GENERATED + '/TlsSites.lean', src)
 
@@ -691,6 +781,16 @@ def run(ctx):
     for mode, v in init_table():
         lines.append(f'init {mode}')
         expect.append(ssl_letter(v))
+    for key, cert, named, present, out in folder_table():
+        case = {'folder': [key, cert, named, present]}
+        if named and isinstance(out, tuple) and out != ('CERT_REQUIRED', 'CERT_REQUIRED'):
+            ctx.fail('tls:ca-file-missing-degrades' if not present else 'tls:ca-file-without-cert-required',
+                     f"mk_ssl_contexts_from_folder with a CA file named ({'present' if present else 'MISSING in the folder'}) "
+                     f'returned contexts with verify modes client={out[0]} server={out[1]}', case)
+        lines.append(f'folder {int(key)} {int(cert)} {int(named)} {int(present)}')
+        expect.append(out if isinstance(out, str) else ' '.join(out))
+        _case(ctx, case, nontrivial=named, sample={**case, 'result': out} if (key, cert, named, present) == (True, True, True, False) else None)
+        ctx.count('folder:' + (out if isinstance(out, str) else 'contexts'))
     # ---- configurations on localhost
     cfgs = all_configs() if ctx.tier == 'thorough' else covering_configs(ctx.seed)
     t0 = time.time()
@@ -723,7 +823,7 @@ def run(ctx):
             ctx.count('site:' + s)
     # ---- wire level: notifications to a subscriber that named an http:// address
     t0 = time.time()
-    deliveries = [(1, 1), (1, 0), (0, 1), (0, 0)]
+    deliveries = [(1, 1), (1, 0), (0, 1), (0, 0)] if ctx.tier == 'thorough' else [(1, 1), (1, 0), (0, ctx.seed % 2)]
     import multiprocessing
     with multiprocessing.get_context('fork').Pool(4) as pool:
         dobs = pool.map(run_delivery, deliveries, chunksize=1)
@@ -778,6 +878,11 @@ def replay(ctx, obj):
         obs = run_delivery(tuple(case['delivery']))
         print({k: obs.get(k) for k in ('connections', 'tls_hello', 'plaintext', 'error')})
         check_delivery(ctx, [obs], [None])
+    elif 'folder' in case:
+        key, cert, named, present = case['folder']
+        out = [o for k, c, n, p_, o in folder_table() if (k, c, n, p_) == (key, cert, named, present)][0]
+        print('mk_ssl_contexts_from_folder ->', out)
+        return bool(named and isinstance(out, tuple) and out != ('CERT_REQUIRED', 'CERT_REQUIRED'))
     elif 'verify' in case:
         server, ca = case['verify']
         c = mk_container(ca)
